@@ -394,6 +394,20 @@ def run(ctx):
         nl = r.pick([None, None, True, False])
         ops.append({"op": "c20.rst", "text": text, "width": width, "indent": indent, **({} if nl is None else {"nl": nl})})
         metas.append(("rst", text, width, None, indent, nl))
+    # ---- call programs: the SAME comment converted several times in one process with different widths (wide first, then
+    # narrower, then wide again) and otherwise equal arguments — the filters are pure functions of their arguments, a result
+    # must not depend on what was asked before (a comment is rendered into many files, at several indents and widths)
+    for i in range(ctx.n(60, 1500)):
+        text = gen_text(r, plain=True)
+        indent = r.pick([0, 4, 8])
+        nl = r.pick([None, None, True, False])
+        ws = sorted({r.randint(40, 100) for _ in range(r.randint(2, 4))}, reverse=True)
+        for width in ws + [ws[0]]:
+            ops.append({"op": "c20.rst", "text": text, "width": width, "indent": indent, **({} if nl is None else {"nl": nl})})
+            metas.append(("rst", text, width, None, indent, nl))
+        for width in ws:
+            ops.append({"op": "c20.wrap", "text": text, "width": width, "indent": indent})
+            metas.append(("wrap", text, width, None, indent, None))
     for i in range(ctx.n(300, 6000)):
         text = gen_text(r)
         width = r.randint(5, 60)
@@ -434,6 +448,16 @@ def run(ctx):
             tq = text.replace('"""', "'''")      # a triple double-quote cannot stay as it is (C20 fix: commit)
             if words(impl.rstrip(".")) != words(tq) and words(impl) != words(tq):
                 ctx.fail("rst-words", "rst changed the words of a plain comment", {"fn": "rst", "text": text, "width": width, "indent": b})
+            # width (plain-text path = wrap(text, indent, offset=indent+3, width=width-indent)): no line is longer than width - indent
+            # unless it is a single unbreakable word behind its indent; the result must be that of THIS call's width
+            # whatever was converted before (`program`: the calls made so far in this process with the same text)
+            for k, line in enumerate(impl.split("\n")):
+                limit = (width - b) - (b + 3) if k == 0 else (width - b)
+                if len(line) > limit and len([w for w in re.split("[\t\n\x0b\x0c\r ]+", line.strip(" ")) if w]) > 1:
+                    ctx.fail("rst-width", f"line {k} of rst(text, width={width}, indent={b}) has {len(line)} columns (limit {limit}) and more than one word: {line!r}",
+                             {"fn": "rst", "text": text, "width": width, "indent": b, "nl": nl,
+                              "program": [[m[2], m[4], m[5]] for m in metas if m[0] == "rst" and m[1] == text]})
+                    break
             if not docstring_ok(impl):
                 key = "docstring-triple-quote" if '"""' in text else ("docstring-trailing-backslash" if text.rstrip().endswith("\\") else "docstring-unsafe")
                 ctx.fail(key, f"rst output cannot sit inside r\"\"\"…\"\"\": {impl[-30:]!r}", {"fn": "rst", "text": text, "width": width, "indent": b})
@@ -479,7 +503,15 @@ def replay(ctx, payload):
         out = wrap(payload["text"], payload["width"], offset=payload.get("offset"), indent=payload.get("indent", 0))
         check_wrap(ctx, payload["text"], payload["width"], payload.get("offset"), payload.get("indent", 0), out, "replay")
     elif fn == "rst":
-        out = rst(payload["text"], width=payload["width"], indent=payload.get("indent", 0))
+        b = payload.get("indent", 0)
+        for (w_, b_, nl_) in payload.get("program") or []:          # the calls that preceded it in the failing run, in order
+            out = rst(payload["text"], width=w_, indent=b_, nl=nl_)
+            for k, line in enumerate(out.split("\n")):
+                limit = (w_ - b_) - (b_ + 3) if k == 0 else (w_ - b_)
+                if len(line) > limit and len([w for w in re.split("[\t\n\x0b\x0c\r ]+", line.strip(" ")) if w]) > 1:
+                    ctx.fail("rst-width", f"line {k} of rst(text, width={w_}, indent={b_}) has {len(line)} columns (limit {limit})", payload)
+                    break
+        out = rst(payload["text"], width=payload["width"], indent=b, nl=payload.get("nl"))
         if not docstring_ok(out):
             ctx.fail("docstring-unsafe", "unsafe", payload)
     else:
